@@ -393,7 +393,17 @@ fn fuzz(ctx: &WorkerCtx, rep: &mut WorkerReport, rng: &mut Rng, state: &'static 
                         let (ov, id) = crafted_btc_overrides(rng);
                         let data = if rng.chance(1, 2) { pre::get_tx_details(&id) } else { pre::get_last_sat_location(&id, rng.below(4), *rng.pick(&[0u64, 1, u64::MAX])) };
                         let to = if data[..4] == pre::get_tx_details(&id)[..4] { pre::PC_TXDETAILS } else { pre::PC_LASTSAT };
-                        ("eth_callMany".into(), json!([[{"to": pc_addr(to), "data": hist::hx(&data)}], Value::Null, ov]), "precompile-overrides")
+                        // the per-call list of current transaction ids may be shorter or longer than the list of calls
+                        let mut ov = ov;
+                        let ncalls = rng.range(1, 3) as usize;
+                        let nids = rng.below(5) as usize;
+                        ov["opReturnTxIds"] = Value::Array((0..nids).map(|i| json!(crate::hist::bh(0x1d00 + i as u64))).collect());
+                        let mut calls = vec![json!({"to": pc_addr(to), "data": hist::hx(&data)})];
+                        while calls.len() < ncalls {
+                            calls.push(if rng.chance(1, 2) { json!({"to": pc_addr(pre::PC_TXID), "data": "0x"}) } else { json!({"to": fz.st.tool, "data": hist::hx(&asm::tool_call(asm::OP_INC, &[asm::word_u64(1)], &[]))}) });
+                        }
+                        let m = if rng.chance(2, 3) { "eth_callMany" } else { "eth_estimateGasMany" };
+                        (m.into(), json!([calls, Value::Null, ov]), if nids < ncalls { "precompile-overrides-fewer-ids" } else { "precompile-overrides" })
                     }
                     3 => ("eth_call".into(), json!([{"to": fz.st.tool, "data": hist::hx(&asm::tool_call(if rng.chance(1, 2) { asm::OP_CALL } else { asm::OP_STATIC }, &[asm::word_u64(a)], &input))}]), "precompile-via-contract"),
                     _ => {
